@@ -1290,3 +1290,67 @@ Proof.
   unfold pipe_backend_hup. destruct (0 <? avail_data (fbuf p)) eqn:A; [|apply Nat.ltb_ge in A; left; lia].
   destruct (re (be p)); [right; reflexivity|]. cbn. discriminate.
 Qed.
+
+(* ---------------- expect: progress (no stall with the header half read) ---------------- *)
+
+Lemma windows_strict : window_v4 < window_v6 /\ window_v6 < window_unix.
+Proof. unfold window_v4, window_v6, window_unix. lia. Qed.
+
+(** after a read that leaves the session waiting for more header bytes there is room in the window *)
+Lemma expect_room_after_continue x s x' s' :
+  expect_readable x s = (x', s', Continue) ->
+  length (xbuf x) <= stage_len (xstage x) ->
+  length (xbuf x') < stage_len (xstage x').
+Proof.
+  unfold expect_readable. intros H LB.
+  destruct (sock_read s (stage_len (xstage x) - length (xbuf x))) as [[s1 bs] res] eqn:R.
+  apply sock_read_spec in R. destruct R as (C & LE & O & _).
+  assert (LN : length (xbuf x ++ bs) <= stage_len (xstage x)) by (rewrite app_length; lia).
+  pose proof windows_strict as WS.
+  assert (G : forall x2 : expect, xbuf x2 = xbuf x ++ bs -> xstage x2 = xstage x ->
+              forall x3 s3,
+              match parse_v2 (xbuf x2) with
+              | POk rest h => (mkx (xbuf x2) (xstage x2) (xint x2) (xev x2) (Some (haddr h)), s1, Upgrade)
+              | PIncomplete =>
+                match xstage x2 with
+                | SV4 => (mkx (xbuf x2) (if length (xbuf x2) =? window_v4 then SV6 else SV4) (xint x2) (xev x2) (xaddr x2), s1, Continue)
+                | SV6 => (mkx (xbuf x2) (if length (xbuf x2) =? window_v6 then SUnix else SV6) (xint x2) (xev x2) (xaddr x2), s1, Continue)
+                | SUnix =>
+                  if length (xbuf x2) =? window_unix
+                  then (mkx (xbuf x2) SUnix rd_empty rd_empty (xaddr x2), s1, Close)
+                  else (x2, s1, Continue)
+                end
+              | PError => (mkx (xbuf x2) (xstage x2) rd_empty rd_empty (xaddr x2), s1, Close)
+              end = (x3, s3, Continue) ->
+              length (xbuf x3) < stage_len (xstage x3)).
+  { intros x2 B S x3 s3 E.
+    destruct (parse_v2 (xbuf x2)) as [| |rest h] eqn:P; [|discriminate E|discriminate E].
+    rewrite <- S in LN. rewrite <- B in LN.
+    destruct (xstage x2) eqn:S2; cbn [stage_len] in LN.
+    - destruct (length (xbuf x2) =? window_v4) eqn:Q; inversion E; subst; clear E; cbn [xbuf xstage stage_len].
+      + apply Nat.eqb_eq in Q. lia.
+      + apply Nat.eqb_neq in Q. lia.
+    - destruct (length (xbuf x2) =? window_v6) eqn:Q; inversion E; subst; clear E; cbn [xbuf xstage stage_len].
+      + apply Nat.eqb_eq in Q. lia.
+      + apply Nat.eqb_neq in Q. lia.
+    - destruct (length (xbuf x2) =? window_unix) eqn:Q; [discriminate E|].
+      inversion E; subst; clear E. rewrite S2. cbn [stage_len]. apply Nat.eqb_neq in Q. lia. }
+  set (x1 := if 0 <? length bs
+             then mkx (xbuf x ++ bs) (xstage x) (if length (xbuf x ++ bs) =? window_unix then set_r (xint x) false else xint x) (xev x) (xaddr x)
+             else mkx (xbuf x ++ bs) (xstage x) (xint x) (set_r (xev x) false) (xaddr x)) in *.
+  assert (B1 : xbuf x1 = xbuf x ++ bs) by (unfold x1; destruct (0 <? length bs); reflexivity).
+  assert (S1 : xstage x1 = xstage x) by (unfold x1; destruct (0 <? length bs); reflexivity).
+  destruct res.
+  - exact (G x1 B1 S1 _ _ H).
+  - destruct (length (xbuf x1) =? 0); [discriminate H|]. exact (G x1 B1 S1 _ _ H).
+  - exact (G (mkx (xbuf x1) (xstage x1) (xint x1) (set_r (xev x1) false) (xaddr x1)) B1 S1 _ _ H).
+  - discriminate H.
+Qed.
+
+(** a read with room and bytes waiting takes at least one byte *)
+Lemma sock_read_takes_a_byte s n s' bs r :
+  sock_read s n = (s', bs, r) -> 0 < n -> inq s <> [] -> 0 < length bs.
+Proof.
+  unfold sock_read. intros H N I. inversion H; subst; clear H.
+  rewrite firstn_length. destruct (inq s); [contradiction|]. cbn [length]. lia.
+Qed.
